@@ -1117,5 +1117,15 @@ func (x *Exec) sendCheck(st *State, ch Val, pos token.Pos) {
 	if _, ok := x.w.classes["ghost:$chclosed"]; !ok || ch.S == "" {
 		return
 	}
+	// channels held in fields declared `neverclosed`: no close() on them exists in the module (checked syntactically)
+	for _, gd := range x.w.cs.Guards {
+		if gd.Kind == "neverclosed" {
+			for _, f := range gd.Fields {
+				if strings.Contains(ch.S, "(select "+quoteSym("H0:"+f)+" ") || strings.Contains(ch.S, "_"+sanitize(shortClass(f))+"!") {
+					return
+				}
+			}
+		}
+	}
 	x.oblige(st, "safety:sendclosed", x.site("send", pos), "", append([]string{"C12"}, x.safetyTags...), sNot("(select "+st.hget("ghost:$chclosed")+" "+ch.S+")"), pos, "send on closed channel")
 }
